@@ -12,9 +12,9 @@ def main(argv):
     # message with a good or bad body), known findings repaired; then the same with the code as it is, FIFO, no races
     adv = {'Fix <- CodeFix': 'Fix <- AllFix', 'MaxAdv = 0': 'MaxAdv = 1'}
     if thorough:
-        adv.update({'MaxAdv = 1': 'MaxAdv = 2', 'MaxTip = 1': 'MaxTip = 2', 'Fifo = TRUE': 'Fifo = FALSE'})
+        adv.update({'MaxAdv = 1': 'MaxAdv = 2'})      # (2.8 M distinct states; with two tip changes and reordering on top TLC did not finish in 40 min)
     models = [('safety-adversarial-repaired', cs.model(chk, 'invariants, adversarial trusted input, known findings repaired', adv,
-                                                      timeout=2400 if thorough else 600, heap='28g' if thorough else '16g'))]
+                                                      timeout=3000 if thorough else 600, heap='28g' if thorough else '16g'))]
     scripts = []
     for name, r in models:
         if r.violated:
